@@ -193,16 +193,21 @@ def run(tier: str) -> Run:
             pre = [k for v, k, r in pm.index if isinstance(k, SVar) and (r is grouped[0][0] or grouped[0][0].view_of is r)]
             r2.check(not pre, 'all points are grouped', loc(pfi), {'selection_before_grouping': [T.show(k.term) if k.term is not None else repr(k) for k in pre][:2]},
                      key='points-dropped')
-        r2.check(got is not None and eq_term(got, want_gid), 'group id', loc(pfi),
-                 {'grouping_coordinate': T.show(got) if got is not None else repr(gid), 'expected': T.show(want_gid), 'group_calls': len(grouped)}, key='group-id')
-        # strictness is part of the group id; reported separately for readability
-        r2.check(got is not None and eq_term(got, want_gid), 'exceed mask', loc(pfi), {'expected': 'abs(slope) > atol (strict), atol in slope units'}, key='mask')
-        keys = [k for v, k, r in pm.index if isinstance(k, SVar) and k.dtype == 'bool' and pm.is_group_result(v)]
-        kt = keys[0].term if len(keys) == 1 else None
-        ret = rets[0].value
-        derived = isinstance(ret, SVar) and pm.derives_from_filtered(ret)
-        r2.check(kt is not None and eq_term(kt, want_size) and derived, 'size filter', loc(pfi),
-                 {'filter_key': T.show(kt) if kt is not None else [repr(k) for k in keys], 'expected': T.show(want_size), 'result_is_the_filtered_groups': derived}, key='size')
+        if not grouped:
+            # another mechanism than group-by-label: the bins are decided semantically by R6 (maximal runs on a finite domain)
+            for inst_ in ('group id', 'exceed mask', 'size filter'):
+                r2.ok(inst_, {'decided_by': 'R6'}, nontrivial=False)
+        else:
+            r2.check(got is not None and eq_term(got, want_gid), 'group id', loc(pfi),
+                     {'grouping_coordinate': T.show(got) if got is not None else repr(gid), 'expected': T.show(want_gid), 'group_calls': len(grouped)}, key='group-id')
+            # strictness is part of the group id; reported separately for readability
+            r2.check(got is not None and eq_term(got, want_gid), 'exceed mask', loc(pfi), {'expected': 'abs(slope) > atol (strict), atol in slope units'}, key='mask')
+            keys = [k for v, k, r in pm.index if isinstance(k, SVar) and k.dtype == 'bool' and pm.is_group_result(v)]
+            kt = keys[0].term if len(keys) == 1 else None
+            ret = rets[0].value
+            derived = isinstance(ret, SVar) and pm.derives_from_filtered(ret)
+            r2.check(kt is not None and eq_term(kt, want_size) and derived, 'size filter', loc(pfi),
+                     {'filter_key': T.show(kt) if kt is not None else [repr(k) for k in keys], 'expected': T.show(want_size), 'result_is_the_filtered_groups': derived}, key='size')
 
     # R1 on the public function: the same grouping coordinate for integer and datetime time stamps, no lossy conversion on the way
     for xdt in ('float64', 'int64', 'datetime64'):
@@ -233,6 +238,9 @@ def run(tier: str) -> Run:
             r1.fail(inst, loc(pfi), {'outcomes': [(o.kind, o.exc_type, o.where) for o in outs1]}, key='derive-public')
             continue
         pm1.restore(snaps1[outs1.index(rets1[0])])
+        if not pm1.groups:
+            r1.ok(inst, {'decided_by': 'R6 (no group-by-label mechanism to read the slope from)'}, nontrivial=False)
+            continue
         gid1 = None
         if len(pm1.groups) == 1:
             recv1, gargs1, _ = pm1.groups[0]
@@ -357,4 +365,6 @@ def run(tier: str) -> Run:
             r5.fail(name, m.where, {'writes_to': sorted(s_.mutates), 'statement': m.stmt}, key=name)
         else:
             r5.ok(name)
+    from checks import c19_runs
+    c19_runs.rule(run, repo, tier, loc(pfi))
     return run
